@@ -111,8 +111,11 @@ def interesting_offsets(L, P=(4096, 16384), S=(4096, 16384), extra=()):
     return sorted(o for o in offs if 0 <= o < L)
 
 
+WS_CHARS = [" ", "\u00a0", "\u2028", "\u3000", "\u0085", "  "]
+
+
 def gen_dup_tree(r, n_classes=6, max_members=4, hostile_p=0.0, n_dirs=4, max_depth=3, hardlinks=True,
-                 lens=None, decoys=True, extra_offsets=(), min_len=1, roots=1):
+                 lens=None, decoys=True, extra_offsets=(), min_len=1, roots=1, ws_twins=0.0):
     """A tree with content classes (identical files), same-length single-byte decoys, hard links.
 
     Returns (spec, meta) where meta lists classes: {"fam","len","flip","members":[relpaths]}."""
@@ -171,4 +174,27 @@ def gen_dup_tree(r, n_classes=6, max_members=4, hostile_p=0.0, n_dirs=4, max_dep
                 nd = r.randrange(1, 3)
                 dm = [newfile(fam, L, (o,)) for _ in range(nd)]
                 classes.append({"fam": fam, "len": L, "flip": [o], "members": dm, "decoy_of": c})
+    if ws_twins and r.random() < ws_twins:
+        # a class member whose name ends (or starts) with white space, next to an unrelated unique
+        # file of the same length whose name is the trimmed one
+        for _ in range(r.randrange(1, 3)):
+            cls = r.choice(classes)
+            if len(cls["members"]) < 2 or cls["len"] == 0:
+                continue
+            victim = cls["members"][-1]
+            ent = next(e for e in entries if e["p"] == victim and e["t"] in "fh")
+            d, base = victim.rsplit("/", 1)
+            ws = r.choice(WS_CHARS)
+            newname = (base + ws) if r.random() < 0.7 else (ws + base)
+            if base in used.get(d, ()) and newname not in used.get(d, ()):
+                used[d].add(newname)
+                for e in entries:
+                    if e.get("to") == victim and e["t"] == "h":
+                        e["to"] = d + "/" + newname
+                ent["p"] = d + "/" + newname
+                cls["members"][-1] = ent["p"]
+                mt += 1
+                entries.append({"t": "f", "p": victim, "fam": r.randrange(10 ** 6, 2 * 10 ** 6), "len": cls["len"],
+                                "flip": [], "mtime": mt})
+                classes.append({"fam": -1, "len": cls["len"], "flip": [], "members": [victim], "ws_twin": True})
     return {"entries": entries, "roots": root_names}, {"classes": classes}
